@@ -105,29 +105,35 @@ pub fn run(ctx: &mut Ctx) {
         ctx.case(3, label, &[&z, &n], &o);
     }
 
-    // ---- implementation-only oracle: the two-value predicate ----
-    let mut rng = ctx.rng("oracle");
-    let n = if ctx.quick() { 1_000_000u64 } else { 60_000_000 };
-    let mut check = |ctx: &mut Ctx, k: [u8; 32], cls: &str| {
-        ctx.oracle_runs += 1;
-        let got = from_le(k);
-        if got != Some(spec(&k)) {
-            ctx.fail("two_value_rule", format!("{{\"key\":\"{}\",\"class\":\"{}\",\"got\":{},\"want\":{}}}", hex(&k), cls, jstr(&format!("{:?}", got.map(|r| r.map(|k| hex(&k))))), jstr(&format!("{:?}", spec(&k).map(|k| hex(&k))))));
-        }
-    };
-    for _ in 0..n / 2 { let k = rng.arr(); check(ctx, k, "random"); }
-    for i in 0..n / 4 { let k = class_member(&mut rng, if i % 3 == 0 { 3 } else { 32 }); check(ctx, k, "zero-or-N-byte class"); }
-    // neighbourhoods {0, N} +- 2^16
+    // ---- implementation-only oracle: the two-value predicate (16 threads) ----
+    let n = if ctx.quick() { 1_000_000u64 } else { 1_600_000_000 };
+    let seed = ctx.seed;
     let w = if ctx.quick() { 1u32 << 12 } else { 1 << 16 };
-    for base in [zero, NLE] {
-        let mut up = base; let mut down = base;
-        for _ in 0..w { check(ctx, up, "neighbourhood"); check(ctx, down, "neighbourhood"); up = add_at(&up, 0, 1); down = add_at(&down, 0, -1); }
-    }
-    for _ in 0..n / 4 {
-        // sparse keys: few non-zero bytes
-        let mut k = [0u8; 32];
-        for _ in 0..rng.range(1, 3) { let i = rng.below(32) as usize; k[i] = if rng.chance(1, 2) { NLE[i] } else { rng.byte() }; }
-        check(ctx, k, "sparse");
-    }
+    let res = crate::srp::par(16, |t| {
+        let mut rng = Rng::new(seed, &format!("C04/oracle/{}", t));
+        let mut fails: Vec<String> = Vec::new(); let mut runs = 0u64;
+        let mut check = |k: [u8; 32], cls: &str, fails: &mut Vec<String>| {
+            let got = from_le(k);
+            if got != Some(spec(&k)) && fails.len() < 20 {
+                fails.push(format!("{{\"key\":\"{}\",\"class\":\"{}\",\"got\":{},\"want\":{}}}", hex(&k), cls, jstr(&format!("{:?}", got.map(|r| r.map(|k| hex(&k))))), jstr(&format!("{:?}", spec(&k).map(|k| hex(&k))))));
+            }
+        };
+        let per = n / 16;
+        for _ in 0..per / 2 { let k = rng.arr(); check(k, "random", &mut fails); runs += 1; }
+        for i in 0..per / 4 { let k = class_member(&mut rng, if i % 3 == 0 { 3 } else { 32 }); check(k, "zero-or-N-byte class", &mut fails); runs += 1; }
+        for _ in 0..per / 4 {
+            let mut k = [0u8; 32];
+            for _ in 0..rng.range(1, 3) { let i = rng.below(32) as usize; k[i] = if rng.chance(1, 2) { NLE[i] } else { rng.byte() }; }
+            check(k, "sparse", &mut fails); runs += 1;
+        }
+        if t == 0 {
+            for base in [[0u8; 32], NLE] {
+                let mut up = base; let mut down = base;
+                for _ in 0..w { check(up, "neighbourhood", &mut fails); check(down, "neighbourhood", &mut fails); up = add_at(&up, 0, 1); down = add_at(&down, 0, -1); runs += 2; }
+            }
+        }
+        (fails, runs)
+    });
+    for (f, r) in res { ctx.oracle_runs += r; for x in f { ctx.fail("two_value_rule", x); } }
     ctx.count_n("oracle:keys", ctx.oracle_runs);
 }
